@@ -379,7 +379,53 @@ func resolveRoles(p *Prog) *Roles {
 	}
 
 	// functions
-	r.Step = r.one("dispatcher step (calls IBaseQueue.Dequeue)", filterPkg(p.funcsCalling(kDequeue, kDequeueAck), modPath))
+	// the dispatcher goroutine is the go-literal from which a Dequeue call is reachable by synchronous calls; the
+	// step is the function that literal calls on that path (the Dequeue itself may sit in a helper of the step)
+	deqFns := filterPkg(p.funcsCalling(kDequeue, kDequeueAck), modPath)
+	isDeq := map[*Func]bool{}
+	for _, f := range deqFns {
+		isDeq[f] = true
+	}
+	var reaches func(f *Func, depth int) bool
+	reaches = func(f *Func, depth int) bool {
+		if isDeq[f] {
+			return true
+		}
+		if depth == 0 {
+			return false
+		}
+		for _, cs := range p.calls(f) {
+			if g := p.byObj[cs.Callee.Key]; g != nil && g.Lib && g != f && reaches(g, depth-1) {
+				return true
+			}
+		}
+		return false
+	}
+	var steps, dispLits []*Func
+	for _, f := range p.pkgFuncs(modPath) {
+		if f.Body == nil {
+			continue
+		}
+		ast.Inspect(f.Body, func(n ast.Node) bool {
+			gs, ok := n.(*ast.GoStmt)
+			if !ok {
+				return true
+			}
+			lit, ok := ast.Unparen(gs.Call.Fun).(*ast.FuncLit)
+			if !ok || p.byLit[lit] == nil {
+				return true
+			}
+			L := p.byLit[lit]
+			for _, cs := range p.calls(L) {
+				if g := p.byObj[cs.Callee.Key]; g != nil && g.Lib && reaches(g, 4) {
+					steps = appendUnique(steps, g)
+					dispLits = appendUnique(dispLits, L)
+				}
+			}
+			return true
+		})
+	}
+	r.Step = r.one("dispatcher step (called by the dispatcher goroutine, reaches IBaseQueue.Dequeue)", steps)
 	r.HandOff = r.one("hand-off (calls pool.Node.Send)", filterPkg(p.funcsCalling(kNodeSend), modPath))
 	// completion literal: argument of Node.Serve
 	var completions []*Func
@@ -397,13 +443,7 @@ func resolveRoles(p *Prog) *Roles {
 		r.NodeFactory = r.Completion.Parent
 	}
 	if r.Step != nil {
-		var loops []*Func
-		for _, f := range p.Funcs {
-			if f.Lit != nil && p.containsCall(f, r.Step.Key) {
-				loops = append(loops, f)
-			}
-		}
-		r.DispLoop = r.one("dispatcher goroutine (literal calling the step)", loops)
+		r.DispLoop = r.one("dispatcher goroutine (go-literal calling the step)", dispLits)
 		if r.DispLoop != nil {
 			r.SpawnDisp = r.DispLoop.Parent
 		}
